@@ -4,7 +4,7 @@ import re
 import subprocess
 from .common import Check, read_keyed, ROOT
 
-KNOWN_CLASSES = ("partial-commit", "uncommitted-flushed", "factory-reset-leftover")
+KNOWN_CLASSES = ("partial-commit", "uncommitted-flushed")
 
 
 def canon_impl(line):
@@ -28,6 +28,10 @@ def canon_impl(line):
             st = "-"
         elif st != "ok":
             st, ack = "no", "-"
+        if len(p) > 6 and p[6] == "D" and st == "ok":
+            # a subscription is persisted after its answer, by a task that goes on after the controller has
+            # its answer: which datagram of the device was the last one of the operation depends on timing
+            ack = "*"
         out.append("|".join([st, p[1], ack] + p[3:]))
     return f[0] + " " + f[1] + " " + ";".join(out) + sep + cuts
 
@@ -125,8 +129,9 @@ def main(tier, replay=None):
                     if part and part != "-":
                         a, _, b = part.partition("-")
                         keys += list(range(int(a), int(b or a) + 1))
-                # keys whose owning handler IS installed in the census device (ICD management, time zone store)
-                own = [k for k in keys if k in (265, 266, 268) or 1 <= k <= 262 or k in (267, 269) or 2048 <= k < 2048 + 15]
+                # every handler that persists anything is part of the census device's data model: no key of the
+                # layout may be left (key 0 is unused; 2063.. are slots beyond this build's subscription table)
+                own = [k for k in keys if 1 <= k <= 269 or 2048 <= k < 2048 + 15]
                 if own:
                     # the name carries the keys: a key that joins the known ones is a new violation
                     names.append("factory-reset-leftover:" + "+".join(str(k) for k in own))
@@ -227,4 +232,5 @@ def main(tier, replay=None):
                           "also issue several stores): a power loss between them leaves a state that is not the state after a whole number of operations",
                           "known finding uncommitted-flushed: SetVIDVerificationStatement while the fail-safe is armed for the fabric (no NOC change pending) "
                           "stores the whole fabric, making its staged changes durable without CommissioningComplete",
-                          "known finding factory-reset-leftover: keys of the ICD and time-zone stores are written by rs-matter but removed by neither factory reset"])
+                          "the census device's data model contains every handler that persists anything (incl. ICD management, time zone "
+                          "store, scenes, OTA requestor); a product that leaves one out keeps nothing under that handler's key either"])
